@@ -11,7 +11,10 @@ use crate::{
     metrics::MetricType, CacheCallback, CacheError, Coster, DefaultCacheCallback, DefaultCoster,
     DefaultKeyBuilder, DefaultUpdateValidator, KeyBuilder, Metrics, UpdateValidator,
 };
+#[cfg(not(transparencies_stretto_verif))]
 use crossbeam_channel::{tick, RecvError};
+#[cfg(transparencies_stretto_verif)]
+use stretto_sim_rt::sync::{tick, RecvError};
 use std::collections::hash_map::RandomState;
 use std::collections::HashMap;
 use std::hash::{BuildHasher, Hash};
